@@ -78,6 +78,9 @@ struct SV {
     // assignment), so it is neither move-assignable nor swappable (swap's body needs the move assignment): those ops do
     // not compile for TMO on this tree and are therefore not part of the check for TMO.
     static constexpr bool MA = std::is_move_assignable_v<V>;
+    // insert(pos, T&&) and emplace(pos, args...) form their one-element range with `&x, &x + 1`: they do not compile for an
+    // element type with an overloaded unary operator& (AO) on this tree and are not part of the check for it
+    static constexpr bool PA = plain_addr<T>;
 
     static void give(V& dst, V&& src)
     {
@@ -137,6 +140,11 @@ struct SV {
                 int val   = static_cast<int>((op.c >> 1) % 7) + 1;
                 auto code = op.code % NCODES;
                 if constexpr (!CP) { code = move_only_remap(code); }
+                if constexpr (!PA) {
+                    if (code == INSERT_RREF) { code = INSERT_CREF; }
+                    if (code == EMPLACE_POS) { code = INSERT_N; }
+                    if (code == CTOR_CARRAY) { code = CTOR_N; } // etl::begin(T(&)[N]) is `&array[0]`: does not compile for AO either
+                }
                 if constexpr (!MA) {
                     if (code == MOVE_ASSIGN || code == SELF_MOVE_ASSIGN || code == SWAP_MEMBER || code == SWAP_FREE || code == SELF_SWAP_MEMBER || code == SELF_SWAP_FREE) { code = MOVE_CTOR; }
                 }
@@ -163,8 +171,10 @@ struct SV {
                 }
                 case POP_BACK: x.pop_back(); break;
                 case INSERT_RREF: {
-                    x.insert(x.begin() + pos, T(val));
-                    h.middle |= (pos > 0 && static_cast<std::size_t>(pos) < sz);
+                    if constexpr (PA) {
+                        x.insert(x.begin() + pos, T(val));
+                        h.middle |= (pos > 0 && static_cast<std::size_t>(pos) < sz);
+                    }
                     break;
                 }
                 case INSERT_CREF: {
@@ -212,8 +222,10 @@ struct SV {
                     break;
                 }
                 case EMPLACE_POS: {
-                    x.emplace(x.begin() + pos, val);
-                    h.middle |= (pos > 0 && static_cast<std::size_t>(pos) < sz);
+                    if constexpr (PA) {
+                        x.emplace(x.begin() + pos, val);
+                        h.middle |= (pos > 0 && static_cast<std::size_t>(pos) < sz);
+                    }
                     break;
                 }
                 case ERASE_POS: {
@@ -395,7 +407,8 @@ struct SV {
                     break;
                 }
                 case CTOR_CARRAY: {
-                    if constexpr (N >= 3) {
+                    if constexpr (!PA) {
+                    } else if constexpr (N >= 3) {
                         T src[3]{T(sv[0]), T(sv[1]), T(sv[2])};
                         V c(std::move(src));
                         h.poll();
@@ -735,6 +748,8 @@ using TMO = lt::TMO;
 using TCO = lt::TCO;
 #define SVC(T, N) Config{"static_vector<" #T "," #N ">", &SV<T, N>::run, NCODES, code_names, (N) <= 2}
 #define IVC(T, N) Config{"inplace_vector<" #T "," #N ">", &IV<T, N>::run, I_NCODES, icode_names, (N) <= 2}
+#define SVCB(T, N) Config{"static_vector<" #T "," #N ">", &SV<T, N>::run, NCODES, code_names, false, 25}
+#define IVCB(T, N) Config{"inplace_vector<" #T "," #N ">", &IV<T, N>::run, I_NCODES, icode_names, false, 25}
 #define STC(T, N) Config{"stack<" #T ",static_vector<" #T "," #N ">>", &STK<T, N>::run, S_NCODES, scode_names, (N) <= 2}
 
 // The TU is built three times (registry flags -DC03_PART=1 / =2 / =3) so that the parts compile in parallel.
@@ -749,12 +764,15 @@ void init_configs()
 #endif
 #if C03_PART == 0 || C03_PART == 3
         // the smallest_size_t boundary: capacity 255 / 256 with every element kind; the FILL op makes the histories reach full()
-        SVC(TMO, 255), SVC(TMO, 256), SVC(TCO, 255), SVC(TCO, 256), SVC(TCM, 255), SVC(TCM, 256),
-        IVC(TMO, 255), IVC(TMO, 256), IVC(TCO, 255), IVC(TCO, 256), IVC(TCM, 255), IVC(TCM, 256),
+        SVCB(TMO, 255), SVCB(TMO, 256), SVCB(TCO, 255), SVCB(TCO, 256), SVCB(TCM, 255), SVCB(TCM, 256),
+        IVCB(TMO, 255), IVCB(TMO, 256), IVCB(TCO, 255), IVCB(TCO, 256), IVCB(TCM, 255), IVCB(TCM, 256),
+        // element shapes of C03_shared.cpp: NC copy may throw, NM move may throw, AO overloaded unary operator&
+        SVC(NC<0>, 4), SVC(NM<0>, 4), SVC(AO<0>, 4),
 #endif
 #if C03_PART == 0 || C03_PART == 2
         IVC(TMO, 0), IVC(TMO, 1), IVC(TMO, 2), IVC(TMO, 4), IVC(TMO, 16), IVC(TCO, 0), IVC(TCO, 1), IVC(TCO, 2), IVC(TCO, 4), IVC(TCO, 16), IVC(TCM, 3),
         STC(TMO, 1), STC(TMO, 4), STC(TCO, 1), STC(TCO, 4), STC(TCM, 2), STC(TCM, 5),
+        IVC(NC<0>, 4), IVC(NM<0>, 4), IVC(AO<0>, 4), STC(NC<0>, 4), STC(NM<0>, 4), STC(AO<0>, 4),
 #endif
     };
 }
@@ -766,11 +784,7 @@ void vf_run(vf::Ctx& c)
     init_configs();
     // fill prefix: three elements into A, two into B (re-mapped to what the capacity allows)
     c03::run_pairs(c, {RawOp{0, 0, 0, 2}, RawOp{0, 0, 0, 4}, RawOp{0, 0, 0, 6}, RawOp{0, 0, 0, 3}, RawOp{0, 0, 0, 5}});
-#if C03_PART == 3
-    c03::run_histories(c, 500, 4000, 30); // capacity 255/256: every op reads up to 512 elements
-#else
-    c03::run_histories(c, 2000, 16000, 30);
-#endif
+    c03::run_histories(c, 2000, 16000, 30); // (capacity 255/256 configurations run a quarter of it: every op reads up to 512 elements)
 }
 
 std::string vf_replay(std::string const&, std::string const& cs)
